@@ -1,8 +1,78 @@
-import Pun.Model.Proto
+import Pun.Model.DepCtx
+/-!
+Protocol of C16
+  `run <tid>:<ev> …`   events `E:<code> X R C N:<k> G A:<op> T:<child> K:<child>`; codes `f p o i u<n>`
+      → `ok <obs> …`   one per event: `<code>` | `<code>|<fam>,<a>,<b>,<branch>` | `<code>|!<Err>`
+      → `err Other`    when a block is left that was never entered
+  `disp <op> <code>`   → `ok <fam>,<a>,<b>,<branch>` | `err <Kind>`
+-/
 namespace Pun.Drv.C16
-open Pun
+open Pun Pun.DepCtx
+
+def parseCode (s : String) : Option Code :=
+  match s with
+  | "f" => some .f | "p" => some .p | "o" => some .o | "i" => some .i
+  | _ =>
+    match s.toList with
+    | 'u' :: ds => if ds.isEmpty then none else (String.ofList ds).toNat?.map Code.unk
+    | _ => none
+
+def showCode : Code → String
+  | .f => "f" | .p => "p" | .o => "o" | .i => "i" | .unk n => s!"u{n}"
+
+def parseOp : String → Option Op
+  | "add" => some .add | "sub" => some .sub | "mul" => some .mul | "div" => some .div
+  | "pow" => some .pow | "radd" => some .radd | "rsub" => some .rsub | "rmul" => some .rmul
+  | _ => none
+
+def showCall (c : Call) : String :=
+  let fam := match c.fam with | .add => "add" | .mul => "mul" | .pow => "pow"
+  let arg : Arg → String := fun a => match a with | .x => "x" | .y => "y" | .negY => "negY" | .recY => "recY"
+  let br := match c.br with
+    | .frechet => "frechet" | .perfect => "perfect" | .opposite => "opposite" | .independent => "independent"
+  s!"{fam},{arg c.a},{arg c.b},{br}"
+
+def parseEv : List String → Option Ev
+  | ["E", c] => (parseCode c).map Ev.enter
+  | ["X"] => some .exit
+  | ["R"] => some .raise
+  | ["C"] => some .genClose
+  | ["N", k] => k.toNat?.map Ev.exitAt
+  | ["G"] => some .get
+  | ["A", op] => (parseOp op).map Ev.arith
+  | ["T", ch] => ch.toNat?.map Ev.spawnThread
+  | ["K", ch] => ch.toNat?.map Ev.spawnTask
+  | _ => none
+
+def parseTEv (s : String) : Option (Nat × Ev) :=
+  match s.splitOn ":" with
+  | t :: rest => do
+    let tid ← t.toNat?
+    let e ← parseEv rest
+    some (tid, e)
+  | _ => none
+
+def showObs (o : Obs) : String :=
+  match o.res with
+  | none => showCode o.code
+  | some (.ok c) => s!"{showCode o.code}|{showCall c}"
+  | some (.error e) => s!"{showCode o.code}|!{e}"
 
 def handle : List String → String
+  | "run" :: evs =>
+    match evs.mapM parseTEv with
+    | none => "bad-op"
+    | some es =>
+      match traceW World.init es with
+      | none => "err Other"
+      | some tr => "ok" ++ String.join (tr.map (fun p => " " ++ showObs p.2))
+  | ["disp", op, c] =>
+    match parseOp op, parseCode c with
+    | some o, some d =>
+      match method o d with
+      | .ok c => s!"ok {showCall c}"
+      | .error e => s!"err {e}"
+    | _, _ => "bad-op"
   | _ => "bad-op"
 
 end Pun.Drv.C16
